@@ -21,7 +21,8 @@ func init() {
 			genResponseFamily(c, f)
 			genSecurityFamily(c, f)
 			if c.Tier == "thorough" {
-				genRouterFamily(c, f)
+				// the larger P/B/A families of the thorough tier plus the schema family (bodies with
+				// nested codecs); the router family adds nothing the request harnesses do not already run
 				genSchemaFamily(c, f)
 			}
 			n := 0
